@@ -153,9 +153,12 @@ def isNoisy (line : Str) : Bool := noiseMarkers.any (fun m => isInfix m line)
 def stripExc (line : Str) : Str :=
   excPrefixes.foldl (fun l p => if startsWith l p then removeAll p l else l) line
 
-/-- `ErrorCleaner._remove_java_content`: `None` for a line with a java file name or a `\tat` frame. -/
+/-- `ErrorCleaner._remove_java_content`: `None` for a line with a java file name or a `\tat` frame; the test
+is repeated after the exception names were deleted (the deletion can assemble a marker). -/
 def removeJava (line : Str) : Option Str :=
-  if isNoisy line then none else some (stripExc line)
+  if isNoisy line then none
+  else if isNoisy (stripExc line) then none
+  else some (stripExc line)
 
 def cleanLines (msg : Str) : List Str := (cleanupErrors msg).filterMap removeJava
 
